@@ -1132,8 +1132,7 @@ Lemma nothing_left_locked : forall slotSize dbl img s f,
 Proof.
   intros ssz dbl img s f H NL. apply rebuild_inv in H. pose proof (iv_ent _ s H f) as E. unfold ent_ok in E.
   destruct (e_state (ents s f)); try tauto.
-  - rewrite E. reflexivity.
-  - contradiction.
+  rewrite E. reflexivity.
 Qed.
 
 (* an intact single-cell entry in an otherwise empty db of seven slots is indexed (hypotheses are satisfiable) *)
